@@ -64,11 +64,8 @@ func cmdTrace(args []string) {
 		ex.TypeHolds = defaultTypeHolds
 		ex.AssumeNonNil = defaultAssumeNonNil
 		st := NewState()
-		var fargs []Value
-		for _, prm := range fn.Params {
-			fargs = append(fargs, ex.paramValue(st, prm.Name(), prm.Type()))
-		}
-		outs := ex.Explore(fn, st, fargs, nil, 0)
+		fargs, bind, _ := ex.rootArgs(st, fn)
+		outs := ex.Explore(fn, st, fargs, bind, 0)
 		fmt.Printf("== %s: %d paths (aborted=%q)\n", key, len(outs), ex.Aborted)
 		for i, o := range outs {
 			fmt.Printf("-- path %d panic=%v ret=%s bounded=%v\n", i, o.Panic, showValue(o.Ret), o.St.Bounded)
